@@ -166,7 +166,7 @@ let replay_plain (b : block) (n : int) (t : int) (records : string list list)
                   List.map Conv.ints_of_zlist (Mdl.TwisePipeline.sres_configs r)))
 
 (* cost bound for a replay (interaction count x configurations x nodes, very rough) *)
-let replay_budget = 3_000_000
+let replay_budget = 60_000_000
 
 let check_twise (b : block) : verdict list =
   match impl b "panic" with
@@ -242,7 +242,12 @@ let check_twise (b : block) : verdict list =
           bump (Printf.sprintf "c09_runs_n%s_t%d" (if n <= 3 then string_of_int n else if n <= 6 then "4-6" else if n <= 9 then "7-9" else "10+") t);
           (match o.pan, o.res with
            | Some msg, _ ->
-             add (Viol ("twise:panic", Printf.sprintf "[%s] panicked: %s" opdesc msg))
+             (* K36 input class: some node lists a child twice (checked on the dumped vector) *)
+             let repeated = List.exists (fun nd ->
+                 let cs = match nd with Model.And cs | Model.Or cs -> List.map Conv.int_of_nat cs | _ -> [] in
+                 List.length (List.sort_uniq compare cs) <> List.length cs) b.circuit in
+             add (Viol ((if repeated then "twise:panic:repeated-child" else "twise:panic"),
+                        Printf.sprintf "[%s] panicked: %s" opdesc msg))
            | None, None -> add (Diff ("c09-protocol", "no result for " ^ opdesc))
            | None, Some ("ERROR" :: msg) ->
              add (Viol ("twise:error", Printf.sprintf "[%s] answered with an error: %s" opdesc (String.concat " " msg)))
